@@ -444,3 +444,4 @@ REPLAY = {}
 
 # further property groups register themselves in RUN / ONE / REPLAY
 import p_c04  # noqa
+import p_c10  # noqa
